@@ -179,6 +179,28 @@ def differential(tier='quick', seed=0):
                 fails.append({'call': f'byteswap({fmt!r}) twice on {data!r}', 'python': "FAILS = True"})
         except ValueError:
             pass
+    # byteswap converts *that object* between the two encodings and nothing else: whichever way the mutable object was made from a
+    # token string, the same string still denotes the original bytes afterwards
+    for tok, code, val in (('uintle:32=1', '<L', 1), ('uintbe:16=258', '>H', 258), ('intle:16=-2', '<h', -2), ('floatle:32=1.5', '<f', 1.5), ('uintle:64=513', '<Q', 513)):
+        want = struct.pack(code, val)
+        for cls in (BitArray, bitstring.BitStream):
+            for rn, make in (('cls(token)', lambda: cls(tok)), ('cls.fromstring(token)', lambda: cls.fromstring(tok)), ('cls(Bits(token))', lambda: cls(Bits(tok))),
+                             ('cls() + token', lambda: cls() + tok), ('copy of Bits(token)', lambda: cls(Bits(tok)[:]))):
+                evals += 1
+                try:
+                    a = make()
+                    a.byteswap()
+                    ok = a.tobytes() == want[::-1] and Bits(tok).tobytes() == want and Bits(tok).unpack(code) == [val] and cls(tok).tobytes() == want
+                    obs = f'a = {a.tobytes().hex()}, Bits(token) = {Bits(tok).tobytes().hex()}'
+                    if not ok:
+                        a.byteswap()             # put a shared store back before going on
+                except Exception as e:
+                    ok = False
+                    obs = type(e).__name__
+                if not ok:
+                    fails.append({'call': f'a = {cls.__name__} via {rn} with token {tok!r}; a.byteswap(); Bits(token)', 'observed': obs, 'expected': f'a = {want[::-1].hex()}, Bits(token) = {want.hex()}',
+                                  'python': f"import bitstring\na = bitstring.{cls.__name__}.fromstring({tok!r}); a.byteswap(); b = bitstring.{cls.__name__}({tok!r}); b.byteswap()\n"
+                                            f"FAILS = bitstring.Bits({tok!r}).tobytes() != bytes.fromhex('{want.hex()}')\na.byteswap()\n"})
     # Array.equals(array.array): true exactly when the items are equal -- byte-identical data under another item kind is not equal
     import array as _array
     same_width = {1: 'bB', 2: 'hH', 4: 'iIf', 8: 'qQd'}          # ('l'/'L' differ between struct's standard and array's native size)
